@@ -30,3 +30,4 @@ EQUIVALENT = [
     ('larger gaps', G, "            coffset += n_clu\n", "            coffset += n_clu + 10\n"),
     ('names', G, "            n_clu = np.max(sc) + 1\n            n_tmp = np.max(st) + 1\n            sc += coffset\n            st += toffset\n", "            n_clu = 1 + np.max(sc)\n            n_tmp = 1 + np.max(st)\n            st += toffset\n            sc += coffset\n"),
 ]
+BREAKING.append(('metadata offsets zipped with the probes that have the file', 'phylib/io/merge.py', "            for subdir, offset in zip(self.subdirs, self.cluster_offsets):\n                try:\n                    field_name, metadata_loc = _read_tsv_simple(subdir / fn)\n                except ValueError:\n                    # Skipping non-existing file.\n                    continue\n", "            paths = [subdir / fn for subdir in self.subdirs if (subdir / fn).exists()]\n            for path, offset in zip(paths, self.cluster_offsets):\n                field_name, metadata_loc = _read_tsv_simple(path)\n", ['C11.S1']))
